@@ -5,10 +5,42 @@ ROOT = os.path.dirname(os.path.dirname(os.path.abspath(__file__)))
 
 # id -> (level category, technique, level text, level note, DESIGN section)
 CHECKS = {
+ "C01": ("exploration", "runtime monitoring: state-machine explorer (BFS over abstract states + random walks) with a signature re-verification monitor after every call",
+         "The real channel.StateMachine is driven through every operation of the complete alphabet (incl. wrong/foreign/replayed/short/empty/nil signatures at every index, forced updates, all phase setters) from every abstract state reachable within the depth bound, plus random walks of length 30; after every call (successful or not) the monitor re-verifies every signature of the current and the staging transaction with channel.Verify. Held on the sequences executed.",
+         "Trusted: channel.Verify/Sign of the sim backend (their binding to one state is C15's subject); explorer branching uses channel.RestoreStateMachine on harness-made snapshots; bounded depth.",
+         "DESIGN.md §5 C01"),
+ "C02": ("exploration", "runtime monitoring: differential test of Update/CheckUpdate/Init against an independent reference predicate over single-condition mutants",
+         "For generated (parameters, reachable current state) pairs every single-condition violation of the successor rules and valid successors are offered to the real machine; nil/error results are compared with a reference predicate written from the property statement; refused candidates must not be staged and nothing may panic.",
+         "Trusted: the reference predicate (harness/internal/refmodel/successor.go); abstains where the statement is silent (backend list, version overflow).",
+         "DESIGN.md §5 C02"),
+ "C09": ("exploration", "runtime monitoring: state-machine explorer with a reference phase automaton compared step by step",
+         "Same explorer as C01; every call's outcome, target phase, staged and current transaction and returned signature are compared with a reference automaton built from the method documentation; erroring calls must leave phase/staging/current untouched (deep snapshots incl. in-place mutation detection). The evidence lists the phase x operation matrix with hit counts, fresh and after failures.",
+         "Trusted: the automaton table (DESIGN.md appendix D). Bounded depth / suffix length; signature indices below N as the property states.",
+         "DESIGN.md §5 C09, appendix D"),
+ "C13": ("exploration", "runtime monitoring: decoders run in address-space-limited child processes under a panic/fatal-error monitor and a limit oracle over mutated and constructed inputs",
+         "67 decoders are fed random bytes, every truncation / bit flip / interesting-value splice of valid encodings, structural protobuf mutations and constructive over-limit encodings; a recovered panic, a dead child (attributed through a last-case file) or an accepted over-limit value is a violation.",
+         "Trusted: recover() and the parent's attribution of child deaths; inputs are generated, not exhaustive; only backend 0 is registered. Large-but-legal allocations are not violations.",
+         "DESIGN.md §5 C13"),
  "C14": ("exploration", "runtime monitoring: generated values through the real codecs, oracle = structural comparison + byte comparison of re-encodings",
          "Every wire type (16 value codecs, all 17 message types natively and through both envelope serializers) is round-tripped on generated values; the monitor compares the decoded value structurally (reflect-based canonical form), with the type's own Equal, checks that exactly the written bytes were consumed inside a longer stream, that re-encoding is byte-stable and that the native encoding of the protobuf round-tripped envelope equals the original's. Held on the values generated, not a proof over all values.",
          "Trusted: the canonical-form walker of the harness; generators cover shapes up to the documented limits but only backend 0 exists. Explicit >64KiB protobuf frame errors are abstentions.",
          "DESIGN.md §5 C14"),
+ "C15": ("exploration", "runtime monitoring: Equal vs. byte equality of encodings over single-field mutants; Verify over (signer, verifier, state pair) triples",
+         "For generated base states every single-field mutator (26, incl. each nested locked/index-map field and each dimension), clones, double mutations and unrelated states are compared: Equal of State/Allocation/Balances/SubAlloc/SubAllocs must agree with byte equality of the encodings, and a signature must verify exactly for the signer's key and an equal state.",
+         "Trusted: the encoders (their faithfulness is C14's subject). Values that cannot be encoded are skipped.",
+         "DESIGN.md §5 C15"),
+ "C16": ("exploration", "runtime monitoring: envelope streams decoded through a chunking io.Reader under many partitions, compared with the contiguous decode",
+         "Streams of 1-5 envelopes per serializer are read through a reader that delivers the bytes in chunks (whole, 1-byte, every two-chunk split point, MSS-sized, random); every envelope must decode to the same envelope as from the contiguous buffer.",
+         "Trusted: the chunking reader models an open connection as the statement specifies (no (0,nil), EOF only after the last byte). Split points are sampled for streams above 6000 bytes.",
+         "DESIGN.md §5 C16"),
+ "C17": ("exploration", "runtime monitoring: ID comparison across clones, round trips and single-field variants of generated parameter sets; constructor/decoder fed constraint violations",
+         "For generated parameter sets the ID must survive clone, reconstruction, native and protobuf round trips, change under each of 13 single-field variants, be stamped on machine-created states, and NewParams/Params.Decode must refuse 9 kinds of constraint violations with an error.",
+         "Trusted: nothing beyond the generators; Aux is deliberately not asserted.",
+         "DESIGN.md §5 C17"),
+ "C19": ("exploration", "runtime monitoring: reflect/unsafe pointer-graph comparison and leaf scribbling on generated values and machines reached by random walks",
+         "For every cloneable type the clone must render equal, share no memory region with the original outside the documented shared set, and scribbling over every leaf of either side (and further machine operations on either machine) must not change the other side.",
+         "Trusted: the pointer-graph walker (harness/internal/ptrgraph); the shared set is taken from the statement (App, Asset, accounts, logger).",
+         "DESIGN.md §5 C19"),
 }
 PENDING = {}  # id -> reason, for properties without a check
 
